@@ -348,6 +348,13 @@ def rect_random_cases(rng, tier):
             r = r or rng.randrange(2, 8 if c == 2 else 7)
             c = c or rng.randrange(2, 8 if r == 2 else 7)
             out.append(rect_line("R", rng.choice("dl"), rng.choice("vi"), r, c, vals_for(r * c)))
+    # cells at +infinity (key 1000003 in the double-valued cases): masked cells, in the interior and on the border
+    for i in range(60 if q else 600):
+        r, c = rng.randrange(2, 6), rng.randrange(2, 6)
+        v = vals_for(r * c)
+        for _ in range(rng.choice([1, 1, 2, 3])):
+            v[rng.randrange(r * c)] = 1000003
+        out.append(rect_line("R", "d", rng.choice("vi"), r, c, v))
     # larger grids: fast reduction in the oracle (cross-checked on a sample)
     for i in range(40 if q else 400):
         r, c = rng.choice([(6, 7), (8, 8), (7, 3), (3, 9), (2, 14), (13, 2), (10, 9), (12, 5), (9, 9), (4, 12), (3, 7), (2, 11)])
